@@ -90,8 +90,10 @@ fn reference_hash() -> u64 {
 }
 
 pub fn init_reference() {
+    // only meaningful if the reference simulation is reproducible in this build at all (C04's statement)
     let h = reference_hash();
-    REF_HASH.with(|r| *r.borrow_mut() = Some(h));
+    let h2 = reference_hash();
+    REF_HASH.with(|r| *r.borrow_mut() = if h == h2 { Some(h) } else { None });
 }
 
 fn follow_up_ok(prop: &str, what: &str, info: &mut RunInfo) -> bool {
@@ -118,11 +120,19 @@ fn execute_net(prop: &str, p: &net::NetProgram) -> RunInfo {
     let opts = net::RunOpts { collect_gate_info: prop == "C08", twin: false };
     let res = net::run_net(p, &opts);
     info.trace_hash = net::trace_hash(&res.trace);
+    if !matches!(prop, "C04" | "C20") && net_oracles::foreign_records(p, &res) {
+        return info;
+    }
     match prop {
         "C09" => net_oracles::check_c09(p, &res, &mut info),
         "C05" | "C06" => asy::check_tasks(p, &res, prop, &mut info),
         "C16" => net_oracles::check_c16(p, &res, &mut info),
         "C13" => {
+            // the twin comparison presupposes that a seeded run is reproducible (C04's statement): check it on this program
+            let again = net::run_net(p, &opts);
+            if net::trace_hash(&again.trace) != info.trace_hash {
+                return info;
+            }
             let twin = net::run_net(p, &net::RunOpts { collect_gate_info: false, twin: true });
             net_oracles::check_c13(p, &res, &twin, &mut info);
             if !info.has("C13") {
